@@ -184,8 +184,7 @@ func (c *Cluster) durableHas(n *Node, idx, term, hash uint64) bool {
 	img.DropUnsynced(func(k int64) int64 { return 0 })
 	simos.Mount("img", img)
 	defer simos.Unmount("img")
-	// The image has the node's tree under /<id>; remount path accordingly.
-	lg, err := raft.NewLog("/img" + n.Path)
+	lg, err := raft.NewLog("/img")
 	if err != nil {
 		return false
 	}
@@ -266,6 +265,9 @@ func (r *Recorder) snapVisible(inc *Incarnation, f *SnapFileWrap) {
 	r.probe("snapshot-visible")
 	if len(f.written) > 32*1024 {
 		r.probe("snapshot-larger-than-chunk")
+	}
+	if md.LastIncludedIndex > inc.Node.snapLabel {
+		inc.Node.snapLabel = md.LastIncludedIndex
 	}
 	key := fmt.Sprintf("%d/%d", md.LastIncludedIndex, md.LastIncludedTerm)
 	if install {
